@@ -69,6 +69,6 @@ Qed.
 Definition sumZ (_ : unit) (vs : list Z) : Z := fold_right Z.add 0 vs.
 Example pivot_instance :
   singleton_idem sumZ tt /\
-  sf_cells (M_pivot Z.eqb Z.eqb (fun l => l) (fun l => l) sumZ (-1) 1 [tt]
+  sf_cells (M_pivot Z.eqb Z.eqb (fun l => l) (fun l => l) sumZ true true (-1) 1 [tt]
               [mk_prow 1 5 [10]; mk_prow 2 6 [20]; mk_prow 1 5 [30]; mk_prow 2 5 [40]]) = [[40; -1]; [40; 20]].
 Proof. split; [intros v; cbn; lia|reflexivity]. Qed.
